@@ -149,19 +149,50 @@ def chain_case(rng, h265, maxq, npk, gop_len, stall_from, resume_at, late_join=F
     sched += [[G.CONS, 0], [G.CONS, 1], [G.CONS, 2]] * 4
     return [G.FIXED, 3, maxq, rng.random() < 0.5, pkts, [0, 0, 0], sched, [0, 0, 0], False, 1, h265, False, False, [1, 1, 0]]
 
+# ---- faults in both callbacks: Consume panics at packet k, Close returns / panics / never returns ------------
+RETURNS, PANICS, BLOCKS = 0, 1, 2
+
+def with_modes(case, modes):
+    case = list(case) + [False] * (13 - len(case))
+    case[12:] = [False, [], modes]
+    return case
+
+def fault_random(rng):
+    c = G.rand_case(rng, G.FIXED, maxq=rng.randint(1, 4), max_pkts=14, max_len=130, panic_p=0.7, flv_p=0.2)
+    return with_modes(c, [rng.choice([RETURNS, PANICS, PANICS, BLOCKS, BLOCKS]) for _ in range(c[1])])
+
+def fault_script(rng, flv):
+    """consumer 0 is healthy; 1 and 2 panic in Consume and then in / inside Close; the publisher goes on, a late
+    stopper and the closer find them gone"""
+    n, npk = 3, rng.randint(5, 9)
+    pkts = [[i + 1, 2 if i % 3 == 0 else 1] for i in range(npk)]
+    panic = [0, rng.randint(1, 3), rng.randint(1, 3)]
+    modes = [RETURNS] + rng.sample([PANICS, BLOCKS], 2)
+    sched = []
+    for c in range(n):
+        sched += [[G.ATT, c]] * 3
+    for i in range(npk):
+        sched += [[G.PUB, 0]] * 3
+        for c in range(n):
+            sched += [[G.CONS, c]] * rng.choice([2, 3])
+    sched += [[G.STOP, 1]] * 2 + [[G.CLOSE, 0]] * 3
+    for c in range(n):
+        sched += [[G.CONS, c]] * 3
+    return with_modes([G.FIXED, n, rng.randint(2, 4), rng.random() < 0.5, pkts, [0, 1, 0], sched, panic, flv, 1, False, False], modes)
+
 def run(ck):
     if not ck.prepare():
         return ck.finish(rule="build failed")
     rng = ck.rng
     cases = []
-    for _ in range(28 if not ck.thorough else 600):
+    for _ in range(25 if not ck.thorough else 600):
         maxq = rng.randint(2, 8)
         npk = rng.randint(10, 60)
         g = rng.randint(1, 9)
         a = rng.randint(0, npk)
         cases.append(stall_case(rng, maxq, npk, g, a, rng.randint(a, npk + 5), gop=rng.random() < 0.5, h265=rng.random() < 0.5))
     cases += [G.rand_case(rng, G.FIXED, maxq=rng.randint(1, 4), max_pkts=30, max_len=160, panic_p=0.3)
-              for _ in range(42 if not ck.thorough else 800)]
+              for _ in range(36 if not ck.thorough else 800)]
     # the real limit of 1000: a few long scripts
     for _ in range(1 if not ck.thorough else 12):
         npk = rng.randint(1100, 1250) if not ck.thorough else rng.randint(1300, 1800)
@@ -189,6 +220,11 @@ def run(ck):
                                  late_join=rng.random() < 0.3, only_types=only))
     ck.stream("rtp-to-flv-chain", chains, "C04_chain", "C04_lts", "C04_chain_ok",
               nontrivial=lambda c: True, sig=lambda c, e, o: "chain", timeout=900)
+    # Consume panics and Close returns / panics / never returns
+    faults = [fault_script(rng, flv) for flv in ((False, False, True) if not ck.thorough else (False, True) * 20)]
+    faults += [fault_random(rng) for _ in range(10 if not ck.thorough else 300)]
+    ck.stream("consume-and-close-faults", faults, "C04_faults", "C04_lts", "C04_faults_ok",
+              nontrivial=lambda c: any(c[7]), sig=lambda c, e, o: "faults", timeout=900)
     ck.stream("stall-resume+random", cases, "C04_lts", "C04_lts", "C04_ok",
               nontrivial=lambda c: len(c[4]) > 5, sig=lambda c, e, o: "lts", timeout=1500)
     return ck.finish(rule="stall/resume scripts (one fast and one stalled consumer, key spacing 1..9, limit 2..8 set through "
